@@ -196,11 +196,15 @@ func (r *Runner) builtin(ctx context.Context, pos syntax.Pos, name string, args 
 		default:
 			return failf(2, "usage: shift [n]\n")
 		}
-		if n >= len(r.Params) {
-			r.Params = nil
-		} else {
-			r.Params = r.Params[n:]
+		if n < 0 {
+			return failf(1, "shift: %d: shift count out of range\n", n)
 		}
+		if n > len(r.Params) {
+			// Like Bash, fail without touching the parameters.
+			exit.code = 1
+			return exit
+		}
+		r.Params = r.Params[n:]
 	case "unset":
 		vars := true
 		funcs := true
